@@ -456,6 +456,14 @@ impl<'a> ReadAdapter<'a> {
     }
 }
 
+#[cfg(all(feature = "std", winterfell_verif))]
+impl<'a> ReadAdapter<'a> {
+    /// Verification hook: `(buf.len(), pos, bytes buffered by the reader, guaranteed_eof)`.
+    pub fn verif_state(&self) -> (usize, usize, usize, bool) {
+        (self.buf.len(), self.pos, self.reader.borrow().buffer().len(), self.guaranteed_eof)
+    }
+}
+
 #[cfg(feature = "std")]
 impl<'a> ByteReader for ReadAdapter<'a> {
     #[inline(always)]
